@@ -58,3 +58,121 @@ package channels
 //@ lemma [finalizing-left-only-by] {C03}: foreach E in (*) except (ResumeResponder, Cancel, Error, Open, Complete, BeginFinalizing,
 //@     FinishTransfer, ResponderCompletes, ResponderBeginsFinalization) :: forall s State ::
 //@     s.Status == datatransfer.Finalizing ==> step(s, E).Status == datatransfer.Finalizing
+
+// ---------------------------------------------------------------------------------------------
+// Assumed contracts of the state-machine group (go-statemachine / go-ds-versioning; DESIGN 2.11)
+
+//@ extern func (github.com/filecoin-project/go-statemachine/fsm.Group).Has
+//@   reads
+//@ extern func (github.com/filecoin-project/go-statemachine/fsm.Group).GetSync params g, ctx, id, value
+//@   reads
+//@   modifies value
+//@ extern func (github.com/filecoin-project/go-statemachine/fsm.Group).List params g, out
+//@   reads
+//@   modifies out
+//@ extern func (github.com/filecoin-project/go-statemachine/fsm.Group).Send
+//@ extern func (github.com/filecoin-project/go-statemachine/fsm.Group).Begin
+//@ extern func (github.com/filecoin-project/go-statemachine/fsm.Group).Stop
+
+//@ type Channels
+//@   nonnil stateMachines, blockIndexCache, progressCache, notifier, migrateStateMachines
+
+// ---------------------------------------------------------------------------------------------
+// Channels: every mutation of a channel goes through exactly one FSM event (single writer)
+
+//@ func (*channels.Channels).checkChannelExists {C02,C05,C16}
+//@   reads
+//@   ensures [read-only] untouched && only(Group.Has)
+//@   ensures [missing] ret(Group.Has, 1) == nil && !ret(Group.Has, 0) ==> err != nil
+
+//@ func (*channels.Channels).send {C02,C03,C05,C17}
+//@   ensures [forward] only(checkChannelExists, Group.Send) && calls(Group.Send) <= 1
+//@   ensures [forward-args] all(Group.Send, $1 == chid && $2 == code && $3 == args)
+//@   ensures [checked] calls(Group.Send) == 1 ==> before(checkChannelExists, Group.Send) && ret(checkChannelExists, 0) == nil
+//@   ensures [result] calls(Group.Send) == 1 ==> err == ret(Group.Send, 0)
+//@   ensures [refused] calls(Group.Send) == 0 ==> err != nil
+
+//@ func (*channels.Channels).GetByID {C06,C02,C19}
+//@   reads
+//@   ensures [flush] only(Group.GetSync) && called(Group.GetSync, _, _, chid)
+//@   ensures [found] (err == nil) == (result != nil)
+//@   ensures [snapshot] err == nil ==> dyntype_is(result, channelState)
+
+//@ func (*channels.Channels).HasChannel {C02}
+//@   reads
+//@   ensures [read-only] only(Group.Has)
+
+//@ func (*channels.Channels).Open {C02,C03,C17}
+//@   ensures [event] seq(send) && called(send, _, chid, datatransfer.Open)
+//@ func (*channels.Channels).Accept {C02,C03,C04}
+//@   ensures [event] seq(send) && called(send, _, chid, datatransfer.Accept)
+//@ func (*channels.Channels).ChannelOpened {C02,C03}
+//@   ensures [event] seq(send) && called(send, _, chid, datatransfer.Opened)
+//@ func (*channels.Channels).TransferInitiated {C02,C03}
+//@   ensures [event] seq(send) && called(send, _, chid, datatransfer.TransferInitiated)
+//@ func (*channels.Channels).Restart {C02,C03,C10}
+//@   ensures [event] seq(send) && called(send, _, chid, datatransfer.Restart)
+//@ func (*channels.Channels).CompleteCleanupOnRestart {C02,C06,C09}
+//@   ensures [event] seq(send) && called(send, _, chid, datatransfer.CompleteCleanupOnRestart)
+//@ func (*channels.Channels).PauseInitiator {C02,C11}
+//@   ensures [event] seq(send) && called(send, _, chid, datatransfer.PauseInitiator)
+//@ func (*channels.Channels).PauseResponder {C02,C11}
+//@   ensures [event] seq(send) && called(send, _, chid, datatransfer.PauseResponder)
+//@ func (*channels.Channels).ResumeInitiator {C02,C11}
+//@   ensures [event] seq(send) && called(send, _, chid, datatransfer.ResumeInitiator)
+//@ func (*channels.Channels).ResumeResponder {C02,C11,C03}
+//@   ensures [event] seq(send) && called(send, _, chid, datatransfer.ResumeResponder)
+//@ func (*channels.Channels).NewVoucher {C02,C19}
+//@   ensures [event] seq(send) && called(send, _, chid, datatransfer.NewVoucher) && all(send, len($3) == 1 && elem($3, 0) == voucher)
+//@ func (*channels.Channels).NewVoucherResult {C02,C19}
+//@   ensures [event] seq(send) && called(send, _, chid, datatransfer.NewVoucherResult) && all(send, len($3) == 1 && elem($3, 0) == voucherResult)
+//@ func (*channels.Channels).Complete {C02,C03,C01}
+//@   ensures [event] seq(send) && called(send, _, chid, datatransfer.Complete)
+//@ func (*channels.Channels).FinishTransfer {C02,C03,C01}
+//@   ensures [event] seq(send) && called(send, _, chid, datatransfer.FinishTransfer)
+//@ func (*channels.Channels).ResponderCompletes {C02,C03,C01}
+//@   ensures [event] seq(send) && called(send, _, chid, datatransfer.ResponderCompletes)
+//@ func (*channels.Channels).ResponderBeginsFinalization {C02,C03}
+//@   ensures [event] seq(send) && called(send, _, chid, datatransfer.ResponderBeginsFinalization)
+//@ func (*channels.Channels).BeginFinalizing {C02,C03,C01}
+//@   ensures [event] seq(send) && called(send, _, chid, datatransfer.BeginFinalizing)
+//@ func (*channels.Channels).Cancel {C02,C09}
+//@   ensures [event] seq(send) && called(send, _, chid, datatransfer.Cancel)
+//@   ensures [swallow] errIs(ret(send, 0), statemachine.ErrTerminated) ==> result == nil
+//@   ensures [other-errors] !errIs(ret(send, 0), statemachine.ErrTerminated) ==> result == ret(send, 0)
+//@ func (*channels.Channels).Error {C02,C04,C09}
+//@   ensures [event] seq(send) && called(send, _, chid, datatransfer.Error) && all(send, len($3) == 1 && elem($3, 0) == err)
+//@ func (*channels.Channels).Disconnected {C02,C03}
+//@   ensures [event] seq(send) && called(send, _, chid, datatransfer.Disconnected) && all(send, len($3) == 1 && elem($3, 0) == err)
+//@ func (*channels.Channels).RequestCancelled {C02,C03}
+//@   ensures [event] seq(send) && called(send, _, chid, datatransfer.RequestCancelled) && all(send, len($3) == 1 && elem($3, 0) == err)
+//@ func (*channels.Channels).SendDataError {C02,C03}
+//@   ensures [event] seq(send) && called(send, _, chid, datatransfer.SendDataError) && all(send, len($3) == 1 && elem($3, 0) == err)
+//@ func (*channels.Channels).ReceiveDataError {C02,C03}
+//@   ensures [event] seq(send) && called(send, _, chid, datatransfer.ReceiveDataError) && all(send, len($3) == 1 && elem($3, 0) == err)
+//@ func (*channels.Channels).SetRequiresFinalization {C02,C04}
+//@   ensures [event] seq(send) && called(send, _, chid, datatransfer.SetRequiresFinalization) && all(send, len($3) == 1 && elem($3, 0) == RequiresFinalization)
+
+//@ func channels.IsChannelTerminated {C02}
+//@   ensures [final] result == (st == datatransfer.Completed || st == datatransfer.Failed || st == datatransfer.Cancelled)
+//@ func channels.IsChannelCleaningUp {C06,C09}
+//@   ensures [cleanup] result == (st == datatransfer.Completing || st == datatransfer.Failing || st == datatransfer.Cancelling)
+
+//@ func (*channels.Channels).SetDataLimit {C02,C08}
+//@   modifies c.progressCache.values
+//@   ensures [event] seq(send) && called(send, _, chid, datatransfer.SetDataLimit) && all(send, len($3) == 1 && elem($3, 0) == dataLimit)
+
+//@ func (*channels.Channels).CreateNew {C18,C19,C04,C10}
+//@   ensures [begin-only] seq(Group.Begin)
+//@   ensures [refused] ret(Group.Begin, 0) != nil ==> err != nil && result0 == datatransfer.ChannelID{}
+//@   ensures [id] all(Group.Begin, $1 == datatransfer.ChannelID{Initiator: initiator, Responder: (dataSender == initiator ? dataReceiver : dataSender), ID: tid})
+//@   ensures [created-id] err == nil ==> result0 == datatransfer.ChannelID{Initiator: initiator, Responder: (dataSender == initiator ? dataReceiver : dataSender), ID: tid}
+//@   ensures [record] all(Group.Begin, (*$2.(*internal.ChannelState)).Status == datatransfer.Requested &&
+//@       (*$2.(*internal.ChannelState)).SelfPeer == selfPeer && (*$2.(*internal.ChannelState)).TransferID == tid &&
+//@       (*$2.(*internal.ChannelState)).Initiator == initiator && (*$2.(*internal.ChannelState)).Sender == dataSender &&
+//@       (*$2.(*internal.ChannelState)).Recipient == dataReceiver && (*$2.(*internal.ChannelState)).BaseCid == baseCid &&
+//@       (*$2.(*internal.ChannelState)).Selector.Node == selector && (*$2.(*internal.ChannelState)).Stages != nil &&
+//@       len((*$2.(*internal.ChannelState)).Vouchers) == 1 && (*$2.(*internal.ChannelState)).Vouchers[0].Type == voucher.Type &&
+//@       (*$2.(*internal.ChannelState)).Vouchers[0].Voucher.Node == voucher.Voucher &&
+//@       len((*$2.(*internal.ChannelState)).VoucherResults) == 0 &&
+//@       (*$2.(*internal.ChannelState)).Responder == (dataSender == initiator ? dataReceiver : dataSender))
